@@ -42,6 +42,7 @@ type CheckCfg struct {
 	Assumptions []string     `json:"assumptions"`
 	Outside     []string     `json:"outside_claim"`
 	Extra       []string     `json:"extra_steps"`
+	Parts       []string     `json:"parts"`
 	ZeroStubs   []string     `json:"zero_stubs"` // functions replaced by stubs returning zero values (calls are logged)
 }
 
@@ -132,8 +133,6 @@ type harnessEvidence struct {
 }
 
 func runCheck(id, tier, repo, only string, workers int, noNative bool) int {
-	start := time.Now()
-	seed, _ := strconv.Atoi(envOr("VERIF_SEED", "0"))
 	cfgB, err := os.ReadFile(filepath.Join(verifRoot, "checks", id+".json"))
 	if err != nil {
 		fmt.Fprintln(os.Stderr, err)
@@ -144,7 +143,97 @@ func runCheck(id, tier, repo, only string, workers int, noNative bool) int {
 		fmt.Fprintln(os.Stderr, "check config:", err)
 		return 2
 	}
-	buildDir := filepath.Join(verifRoot, ".build", id)
+	if len(cfg.Parts) == 0 {
+		return runOne(id, cfg, tier, repo, only, workers, noNative)
+	}
+	// a property whose harnesses live in several packages: run the parts, merge the evidence
+	start := time.Now()
+	rc := 0
+	var docs []map[string]interface{}
+	for _, part := range cfg.Parts {
+		pb, err := os.ReadFile(filepath.Join(verifRoot, "checks", part+".json"))
+		if err != nil {
+			fmt.Fprintln(os.Stderr, err)
+			return 2
+		}
+		var pc CheckCfg
+		if err := json.Unmarshal(pb, &pc); err != nil {
+			fmt.Fprintln(os.Stderr, "check config:", err)
+			return 2
+		}
+		pc.Property = cfg.Property
+		r := runOne(part, pc, tier, repo, only, workers, noNative)
+		if r == 1 || (r == 2 && rc == 0) {
+			rc = r
+		}
+		if eb, err := os.ReadFile(filepath.Join(verifRoot, "evidence", part+".json")); err == nil {
+			var d map[string]interface{}
+			if json.Unmarshal(eb, &d) == nil {
+				docs = append(docs, d)
+			}
+			os.Remove(filepath.Join(verifRoot, "evidence", part+".json"))
+		}
+	}
+	mergeEvidence(id, cfg, docs, time.Since(start))
+	return rc
+}
+
+func mergeEvidence(id string, cfg CheckCfg, docs []map[string]interface{}, wall time.Duration) {
+	if len(docs) == 0 {
+		return
+	}
+	out := docs[0]
+	cov := out["coverage"].(map[string]interface{})
+	num := func(m map[string]interface{}, k string) float64 {
+		f, _ := m[k].(float64)
+		return f
+	}
+	for _, d := range docs[1:] {
+		c := d["coverage"].(map[string]interface{})
+		for _, k := range []string{"states", "transitions", "traces_validated_against_impl", "obligations", "discharged", "solver_time_s"} {
+			cov[k] = num(cov, k) + num(c, k)
+		}
+		for _, k := range []string{"states", "transitions", "traces_validated_against_impl", "obligations", "discharged"} {
+			cov[k] = int(num(cov, k))
+		}
+		for _, k := range []string{"samples", "harnesses", "functions_encoded", "stubs_hit"} {
+			a, _ := cov[k].([]interface{})
+			b, _ := c[k].([]interface{})
+			cov[k] = append(a, b...)
+		}
+		if e, _ := c["exhaustive"].(bool); !e {
+			cov["exhaustive"] = false
+		}
+		cov["status"] = fmt.Sprint(cov["status"]) + " | " + fmt.Sprint(c["status"])
+		out["violations"] = int(num(out, "violations") + num(d, "violations"))
+		aa, _ := out["assumptions"].([]interface{})
+		for _, x := range d["assumptions"].([]interface{}) {
+			dup := false
+			for _, y := range aa {
+				if x == y {
+					dup = true
+				}
+			}
+			if !dup {
+				aa = append(aa, x)
+			}
+		}
+		out["assumptions"] = aa
+	}
+	for _, k := range []string{"states", "transitions", "traces_validated_against_impl", "obligations", "discharged"} {
+		cov[k] = int(num(cov, k))
+	}
+	out["property_id"] = id
+	out["wall_s"] = wall.Seconds()
+	b, _ := json.MarshalIndent(out, "", " ")
+	os.WriteFile(filepath.Join(verifRoot, "evidence", id+".json"), b, 0o644)
+}
+
+func runOne(name string, cfg CheckCfg, tier, repo, only string, workers int, noNative bool) int {
+	start := time.Now()
+	seed, _ := strconv.Atoi(envOr("VERIF_SEED", "0"))
+	id := cfg.Property
+	buildDir := filepath.Join(verifRoot, ".build", name)
 	os.MkdirAll(buildDir, 0o755)
 	ov, repl, err := prepareOverlay(repo, cfg.Package, buildDir)
 	if err != nil {
@@ -154,7 +243,7 @@ func runCheck(id, tier, repo, only string, workers int, noNative bool) int {
 	eng, err := loadEngine(repo, cfg.Package, ov)
 	if err != nil {
 		fmt.Fprintln(os.Stderr, "load:", err)
-		writeEvidence(id, tier, seed, cfg, nil, nil, time.Since(start), "load-failed: "+err.Error(), 0, 0)
+		writeEvidence(name, id, tier, seed, cfg, nil, nil, time.Since(start), "load-failed: "+err.Error(), 0, 0)
 		return 2
 	}
 	for _, zs := range cfg.ZeroStubs {
@@ -183,9 +272,10 @@ func runCheck(id, tier, repo, only string, workers int, noNative bool) int {
 	var evs []*harnessEvidence
 	var batch []replayItem
 	type cand struct {
-		h   string
-		f   FailRec
-		rid string
+		h      string
+		f      FailRec
+		rid    string
+		params map[string]int
 	}
 	var cands []cand
 	noVerdict := []string{}
@@ -197,6 +287,26 @@ func runCheck(id, tier, repo, only string, workers int, noNative bool) int {
 	if b := os.Getenv("VERIF_BUDGET_S"); b != "" {
 		n, _ := strconv.Atoi(b)
 		budget = time.Duration(n) * time.Second
+	}
+	if os.Getenv("VERIF_QPROF") != "" {
+		qprof = map[string]int{}
+		defer func() {
+			type kv struct {
+				k string
+				v int
+			}
+			var l []kv
+			for k, v := range qprof {
+				l = append(l, kv{k, v})
+			}
+			sort.Slice(l, func(i, j int) bool { return l[i].v > l[j].v })
+			for i, e := range l {
+				if i > 15 {
+					break
+				}
+				fmt.Fprintf(os.Stderr, "QPROF %6d %s\n", e.v, e.k)
+			}
+		}()
 	}
 	maxFails := 8
 	if mf := os.Getenv("VERIF_MAXFAILS"); mf != "" {
@@ -291,7 +401,7 @@ func runCheck(id, tier, repo, only string, workers int, noNative bool) int {
 			}
 			seenMsg[key]++
 			rid := fmt.Sprintf("%s-%d", hc.Name, len(cands))
-			cands = append(cands, cand{hc.Name, f, rid})
+			cands = append(cands, cand{hc.Name, f, rid, eng.params})
 			rep := hc.Repeat
 			batch = append(batch, replayItem{ID: "cand:" + rid, Harness: hc.Name, Vector: f.Vector, Params: eng.params, Known: openIDs(eng), Repeat: rep})
 		}
@@ -310,7 +420,7 @@ func runCheck(id, tier, repo, only string, workers int, noNative bool) int {
 				break
 			}
 			batch = append(batch, replayItem{ID: fmt.Sprintf("val:%s:%d", hc.Name, i), Harness: hc.Name, Vector: s.Vector, Params: eng.params, Known: openIDs(eng),
-				expectObs: s.Observes, expectOutcome: s.Outcome})
+				expectObs: s.Observes, expectOutcome: s.Outcome, ExpectObs: s.Observes, ExpectOutcome: s.Outcome, Repeat: 40})
 		}
 		if len(h.samples) > 0 {
 			ev.Sample = map[string]interface{}{"input_vector": h.samples[0].Vector, "outcome": h.samples[0].Outcome, "observations": h.samples[0].Observes, "decisions": h.samples[0].Trace}
@@ -320,7 +430,13 @@ func runCheck(id, tier, repo, only string, workers int, noNative bool) int {
 	// known finding witnesses
 	for _, k := range known {
 		if k.Property == id && k.Status == "open" && len(k.Witness) > 0 {
-			batch = append(batch, replayItem{ID: "known:" + k.ID, Harness: k.Harness, Vector: k.Witness, Params: k.Params, Known: nil})
+			rep := 0
+			for _, hc := range cfg.Harnesses {
+				if hc.Name == k.Harness {
+					rep = hc.Repeat
+				}
+			}
+			batch = append(batch, replayItem{ID: "known:" + k.ID, Harness: k.Harness, Vector: k.Witness, Params: k.Params, Known: nil, Repeat: rep})
 		}
 	}
 
@@ -346,7 +462,7 @@ func runCheck(id, tier, repo, only string, workers int, noNative bool) int {
 				reproduced := (c.f.Kind == "assert" && r.Outcome == "assert") || (c.f.Kind == "panic" && r.Outcome == "panic")
 				if reproduced {
 					violations++
-					p := writeReplay(id, c.rid, c.h, c.f, eng.params, r, repo)
+					p := writeReplay(id, c.rid, c.h, c.f, c.params, r, repo)
 					replayPaths = append(replayPaths, p)
 					fmt.Printf("VIOLATION property=%s replay=%s\n", id, p)
 					fmt.Fprintf(os.Stderr, "   %s: %s\n      inputs: %s\n      observed: %s\n", c.h, c.f.Msg, strings.Join(c.f.Named, " "), strings.Join(r.Observes, " "))
@@ -401,7 +517,7 @@ func runCheck(id, tier, repo, only string, workers int, noNative bool) int {
 	} else if len(noVerdict) > 0 {
 		status = "no-verdict: " + strings.Join(noVerdict, "; ")
 	}
-	writeEvidence(id, tier, seed, cfg, evs, eng, time.Since(start), status, violations, validated)
+	writeEvidence(name, id, tier, seed, cfg, evs, eng, time.Since(start), status, violations, validated)
 	fmt.Fprintf(os.Stderr, "[%s] %s (%.1fs)\n", id, status, time.Since(start).Seconds())
 	if violations > 0 {
 		return 1
@@ -446,6 +562,9 @@ type replayItem struct {
 	Params  map[string]int `json:"params"`
 	Known   []string       `json:"known"`
 	Repeat  int            `json:"repeat"`
+
+	ExpectOutcome string   `json:"expect_outcome,omitempty"`
+	ExpectObs     []string `json:"expect_obs,omitempty"`
 
 	expectObs     []string
 	expectOutcome string
@@ -649,7 +768,7 @@ func runReplayFile(path string) int {
 // ---------------------------------------------------------------------------
 // evidence
 
-func writeEvidence(id, tier string, seed int, cfg CheckCfg, evs []*harnessEvidence, eng *Engine, wall time.Duration, status string, violations, validated int) {
+func writeEvidence(name, id, tier string, seed int, cfg CheckCfg, evs []*harnessEvidence, eng *Engine, wall time.Duration, status string, violations, validated int) {
 	states, transitions, obligations, discharged := 0, 0, 0, 0
 	var samples []interface{}
 	exhaustive := true
@@ -709,5 +828,5 @@ func writeEvidence(id, tier string, seed int, cfg CheckCfg, evs []*harnessEviden
 	}
 	b, _ := json.MarshalIndent(doc, "", " ")
 	os.MkdirAll(filepath.Join(verifRoot, "evidence"), 0o755)
-	os.WriteFile(filepath.Join(verifRoot, "evidence", id+".json"), b, 0o644)
+	os.WriteFile(filepath.Join(verifRoot, "evidence", name+".json"), b, 0o644)
 }
